@@ -51,6 +51,8 @@ type lcReq struct {
 	StoredAfter  bool       `json:"storedAfter"`
 	FinalBranch  string     `json:"finalBranch"`
 	Seen         int        `json:"seen"`
+	SawJail      bool       `json:"sawJail"`
+	Jail         bool       `json:"jail"`
 }
 
 type lcBehaviour struct {
@@ -74,6 +76,8 @@ type lcObsReq struct {
 	KnowAfter    bool     `json:"knowAfter"`
 	StoredAfter  bool     `json:"storedAfter"`
 	Seen         int      `json:"seen"`     // rate counter value the request logged, -1 = unknown
+	Jail         bool     `json:"jail"`     // the request puts the client into the penalty box
+	JailSeen     int      `json:"jailSeen"` // 1/0: the request found the client in the penalty box, -1 = unknown
 	StartSeq     int      `json:"startSeq"` // concurrent traces: global sequence numbers of start / end
 	EndSeq       int      `json:"endSeq"`
 }
@@ -116,7 +120,7 @@ func lcStmt(b string) string {
 func lcProgram(b lcBehaviour, backend string, style func(k int) int) string {
 	var sb, helpers strings.Builder
 	sb.WriteString(backend)
-	sb.WriteString("ratecounter rc {}\n")
+	sb.WriteString("ratecounter rc {}\npenaltybox pb {}\n")
 	k := 0
 	for _, s := range lcSubs {
 		fmt.Fprintf(&sb, "sub vcl_%s {\n  log \"%s\";\n", s, s)
@@ -127,6 +131,11 @@ func lcProgram(b lcBehaviour, backend string, style func(k int) int) string {
 		if s == "recv" {
 			// shared state that outlives a request: the n-th request served sees n
 			sb.WriteString("  if (req.restarts == 0) { set req.http.X-Count = ratelimit.ratecounter_increment(rc, \"k\", 1); log \"count:\" req.http.X-Count; }\n")
+			sb.WriteString("  if (req.restarts == 0) { if (ratelimit.penaltybox_has(pb, \"k\")) { log \"jail:1\"; } else { log \"jail:0\"; } if (req.http.X-Jail == \"1\") { ratelimit.penaltybox_add(pb, \"k\", 10m); } }\n")
+		}
+		if s == "hash" {
+			// a cache key may also be told apart by a request header that vcl_hash adds to the hash
+			sb.WriteString("  if (req.http.X-Vary) { set req.hash += req.http.X-Vary; }\n")
 		}
 		for n, r := range b.Reqs {
 			for _, c := range r.Prog {
@@ -175,7 +184,7 @@ type lcReport struct {
 	} `json:"client_response"`
 }
 
-func lcServe(ip *interpreter.Interpreter, u string, n int, status int) (rep lcReport, code int, crashed string) {
+func lcServe(ip *interpreter.Interpreter, u string, vary string, jail bool, n int, status int) (rep lcReport, code int, crashed string) {
 	defer func() {
 		if r := recover(); r != nil {
 			crashed = fmt.Sprint(r)
@@ -185,6 +194,12 @@ func lcServe(ip *interpreter.Interpreter, u string, n int, status int) (rep lcRe
 	req := httptest.NewRequest("GET", "http://localhost/"+u, nil)
 	req.Header.Set("X-Req", strconv.Itoa(n))
 	req.Header.Set("X-Status", strconv.Itoa(status))
+	if vary != "" {
+		req.Header.Set("X-Vary", vary)
+	}
+	if jail {
+		req.Header.Set("X-Jail", "1")
+	}
 	ip.ServeHTTP(rec, req)
 	res := rec.Result()
 	code = res.StatusCode
@@ -273,14 +288,30 @@ func c06Replay(args []string) int {
 		ip.Debugger = silentDebugger{}
 		res := caseResult{ID: id, Input: b}
 		obs := lcObsTrace{ID: id}
+		hashes := map[string]string{}
 		var keyParts []string
 		for k, r := range b.Reqs {
-			hash := "http://localhost/" + r.URL
-			before := ip.VerifCacheFresh(hash)
-			rep, code, crashed := lcServe(ip, r.URL, k+1, r.Status)
+			// cache key -> (URL, X-Vary): either distinct URLs or one URL told apart by the header vcl_hash adds
+			path, vary := r.URL, ""
+			if !*plain && (seed+int64(n))%2 == 1 {
+				path, vary = "k", r.URL
+			}
+			hash, known := hashes[r.URL]
+			before := false
+			if known {
+				before = ip.VerifCacheFresh(hash)
+			}
+			rep, code, crashed := lcServe(ip, path, vary, r.Jail, k+1, r.Status)
 			rec := ip.VerifRecord()
+			if rec.Hash != "" {
+				if known && rec.Hash != hash {
+					res.Drift = append(res.Drift, map[string]any{"obs": "hash", "expected": hash, "got": rec.Hash})
+				}
+				hash = rec.Hash
+				hashes[r.URL] = hash
+			}
 			o := lcObsReq{URL: r.URL, Status: r.Status, Exact: true, KnowBefore: true, StoredBefore: before,
-				Defined: rec.Defined, KnowAfter: true}
+				Defined: rec.Defined, KnowAfter: hash != "", Jail: r.Jail, JailSeen: -1}
 			var got []string
 			for _, f := range rep.Flows {
 				if strings.HasPrefix(f.Subroutine, "vcl_") {
@@ -308,6 +339,11 @@ func c06Replay(args []string) int {
 			}
 			o.Seen = -1
 			for _, lg := range rep.Logs {
+				if lg.Message == "jail:1" {
+					o.JailSeen = 1
+				} else if lg.Message == "jail:0" {
+					o.JailSeen = 0
+				}
 				if strings.HasPrefix(lg.Message, "count:") {
 					if n, err := strconv.Atoi(strings.TrimPrefix(lg.Message, "count:")); err == nil {
 						o.Seen = n
@@ -320,7 +356,7 @@ func c06Replay(args []string) int {
 			o.Restarts = rep.Restarts
 			o.Cached = rep.Cached
 			o.XCache = rep.Client.Headers["x-cache"]
-			o.StoredAfter = ip.VerifCacheFresh(hash)
+			o.StoredAfter = hash != "" && ip.VerifCacheFresh(hash)
 			switch {
 			case crashed != "":
 				o.Outcome = "crash"
@@ -328,9 +364,6 @@ func c06Replay(args []string) int {
 				o.Outcome = "error"
 			default:
 				o.Outcome = "ok"
-			}
-			if rec.Hash != "" && rec.Hash != hash {
-				res.Drift = append(res.Drift, map[string]any{"obs": "hash", "expected": hash, "got": rec.Hash})
 			}
 			obs.Reqs = append(obs.Reqs, o)
 			// comparison with the mechanism prediction (diagnostic; the verdict comes from the trace spec)
@@ -447,7 +480,7 @@ func c06H1(args []string) int {
 			}
 			q := lcObsReq{URL: u, Status: 0, Exact: false, KnowBefore: false, Flows: r.Flows, Acts: []string{},
 				Defined: r.Defined, Restarts: r.Restarts, XCache: r.XCache, Cached: r.Cached,
-				KnowAfter: r.Hash != "", StoredAfter: r.StoredAfter, Seen: -1}
+				KnowAfter: r.Hash != "", StoredAfter: r.StoredAfter, Seen: -1, JailSeen: -1}
 			if q.Flows == nil {
 				q.Flows = []string{}
 			}
